@@ -192,6 +192,11 @@ func ScanSnapshot(in io.Reader, prefix io.Writer, opts *Opts) (*Snapshot, []byte
 			}
 		}
 	}
+	if suffix == nil && s.state == done {
+		// The line that ended the trace was consumed (race detector footer).
+		// Hand back what was read ahead instead of dropping it.
+		suffix = append([]byte{}, r.buffered()...)
+	}
 	if s.Goroutines != nil {
 		if opts.NameArguments {
 			nameArguments(s.Goroutines)
